@@ -47,6 +47,12 @@ pub enum Shape {
     AlignedLadder,
     /// alloc_probe only: Vec<#[repr(align(N))] record> pushed, shrunk to fit, pushed again, dropped
     VecAligned,
+    /// large blocks (64 KiB .. 1 MiB) allocated one at a time, each shrunk by realloc to a few bytes .. a few
+    /// hundred bytes and KEPT (also grow-then-shrink-and-keep); only one large block is ever live; everything is
+    /// freed at the end of the repetition. Held memory is also sampled with all the shrunk blocks alive.
+    ShrinkKeep,
+    /// alloc_probe only: the same through Vec::with_capacity / shrink_to_fit / into_boxed_slice / shrink_to
+    VecShrink,
 }
 #[derive(Copy, Clone, PartialEq, Eq, Debug)]
 pub enum Order {
@@ -54,7 +60,7 @@ pub enum Order {
     Fifo,
     Random,
 }
-pub const SHAPES: [(&str, Shape); 8] = [
+pub const SHAPES: [(&str, Shape); 10] = [
     ("small", Shape::Small),
     ("large", Shape::Large),
     ("mixed", Shape::Mixed),
@@ -63,7 +69,13 @@ pub const SHAPES: [(&str, Shape); 8] = [
     ("round", Shape::Round),
     ("aladder", Shape::AlignedLadder),
     ("vecalign", Shape::VecAligned),
+    ("shrinkkeep", Shape::ShrinkKeep),
+    ("vecshrink", Shape::VecShrink),
 ];
+/// shapes whose held memory is sampled between the allocation and the free half as well
+pub fn samples_mid(shape: Shape) -> bool {
+    matches!(shape, Shape::ShrinkKeep | Shape::VecShrink)
+}
 pub const LADDER_ALIGNS: [usize; 4] = [32, 64, 128, 4096];
 pub const ORDERS: [(&str, Order); 3] = [("lifo", Order::Lifo), ("fifo", Order::Fifo), ("random", Order::Random)];
 
@@ -133,7 +145,13 @@ pub fn plan(shape: Shape, seed: u64, share: usize) -> Vec<Item> {
                 v.push(Item { size: align * (1 + r.below(3) as usize) + r.below(40) as usize, align });
             }
         }
-        Shape::VecAligned => {}
+        Shape::VecAligned | Shape::VecShrink => {}
+        Shape::ShrinkKeep => {
+            for i in 0..(600 / share).max(20) {
+                let size = (64 << 10) + r.below((1 << 20) - (64 << 10)) as usize;
+                v.push(Item { size, align: if i % 4 == 3 { 64 } else { 8 } });
+            }
+        }
         Shape::Round => {
             v.push(Item { size: (8 << 20) + r.below(4096) as usize, align: 8 });
             v.push(Item { size: (3 << 20) + r.below(4096) as usize, align: 8 });
@@ -177,6 +195,37 @@ unsafe fn touch(p: *mut u8, size: usize, tag: u8) {
 /// Allocation half of a repetition: everything in `plan` is allocated (and, for ladders, grown
 /// and shrunk by realloc). Live blocks are appended to `slots`.
 pub unsafe fn rep_allocate<H: Heap>(h: &mut H, shape: Shape, plan: &[Item], slots: &mut Vec<Slot>, st: &mut RepStats) {
+    if shape == Shape::ShrinkKeep {
+        // requested bytes live at each moment: the kept small blocks plus the one large block in work
+        let mut live = 0usize;
+        for (i, it) in plan.iter().enumerate() {
+            let small = 8 + it.size % 389;
+            let first = if i % 3 == 1 { 4096 } else { it.size };
+            let p = h.alloc(first, it.align);
+            st.calls += 1;
+            if p.is_null() || (p as usize) & (it.align - 1) != 0 {
+                st.failed += 1;
+                continue;
+            }
+            live += first;
+            st.peak_live = st.peak_live.max(live);
+            let mut s = Slot { p, size: first, align: it.align };
+            touch(s.p, s.size, 0xC3);
+            match i % 3 {
+                // grow, then shrink and keep
+                1 => {
+                    re_raw(h, &mut s, it.size, st, &mut live);
+                    touch(s.p, s.size, 0xC4);
+                }
+                // shrink in two steps
+                2 => re_raw(h, &mut s, it.size / 2, st, &mut live),
+                _ => {}
+            }
+            re_raw(h, &mut s, small, st, &mut live);
+            slots.push(s);
+        }
+        return;
+    }
     if shape == Shape::Round {
         // one block at a time: allocate, touch, free
         for it in plan {
@@ -246,7 +295,12 @@ pub unsafe fn rep_allocate<H: Heap>(h: &mut H, shape: Shape, plan: &[Item], slot
 
 unsafe fn re<H: Heap>(h: &mut H, s: &mut Slot, new: usize, st: &mut RepStats, live: &mut usize) {
     // a ladder that outgrows 256 KiB falls back to a quarter of that (keeps the peak moderate)
-    let new = if new > (256 << 10) { (64 << 10) + new % 4096 } else { new.max(1) };
+    let new = if new > (256 << 10) { (64 << 10) + new % 4096 } else { new };
+    re_raw(h, s, new, st, live);
+}
+
+unsafe fn re_raw<H: Heap>(h: &mut H, s: &mut Slot, new: usize, st: &mut RepStats, live: &mut usize) {
+    let new = new.max(1);
     let p = h.realloc(s.p, s.size, s.align, new);
     st.calls += 1;
     if p.is_null() || (p as usize) & (s.align - 1) != 0 {
